@@ -23,6 +23,7 @@ Inductive item16 :=
 | Block (k : ekind) (ib ie : string) (body : list uline)     (* ib / ie : what precedes the begin / end tag on its line (indentation) *)
 | SigBlock (ib ie : string) (body : list uline)
 | TransBlock (ib ie : string) (body : list titem)             (* per state > per event > per transition, nested *)
+| MsgBlock (ib ie sfx : string) (body : list uline)   (* a per-message block whose body may mention <<<MSGID>>>; sfx: what follows the end tag on its line *)
 | InitLine (l : uline)                    (* a line outside blocks that mentions the initial state: <<<STATE_0>>> / <<<state_0>>> *)
 | UserLine (l : uline)                    (* a line outside blocks with user tags <<<name>>> / <<<name=default>>> (C17_usertag) *)
 | TableLine (pre : string) (ee : bool)    (* pre <<<TTT_BOOST_SML>>> / pre <<<TTT_BOOST_SML_ENTRY_EXIT>>> (ee): the boost::sml transition table is printed here *)
@@ -64,6 +65,8 @@ Definition render_item16 (it : item16) : list string :=
   | SigBlock ib ie body => (ib ++ begin_line "PER_ACTION_SIGNATURE")%string :: map render_line body ++ [(ie ++ end_line "PER_ACTION_SIGNATURE")%string]
   | TransBlock ib ie body =>
       (ib ++ begin_line "PER_STATETRANSITION")%string :: flat_map render_titem body ++ [(ie ++ end_line "PER_STATETRANSITION")%string]
+  | MsgBlock ib ie sfx body =>
+      (ib ++ begin_line "PER_MSG")%string :: map render_line body ++ [(ie ++ "<<<PER_MSG_END>>>" ++ sfx ++ nl_str)%string]
   | InitLine l => [render_line l]
   | UserLine l => [render_line l]
   | TableLine pre ee => [(pre ++ ttt_tag ee ++ nl_str)%string]
@@ -117,7 +120,9 @@ Record elements := {
   (* the rows of the table as given (five columns each) *)
   el_rows : list (list string);
   (* the user-tag assignment of the generation (a dictionary name -> str(value)) *)
-  el_user : list (string * string) }.
+  el_user : list (string * string);
+  (* message name -> str(MessageTypeID) *)
+  el_msgids : list (string * string) }.
 
 Fixpoint add_missing (l extra : list string) : list string :=
   match extra with
@@ -147,7 +152,7 @@ Definition elements_of (t : table) (structs protos msgs : list string) : element
   {| el_states := TTable.states t; el_events := add_missing (TTable.events t) structs;
      el_actions := TTable.actions t; el_guards := TTable.guards t; el_sigs := TTable.actionsignatures t;
      el_structs := structs; el_protos := protos; el_msgs := msgs; el_tps := tps_of t; el_first := TTable.getfirststate t;
-     el_rows := map (fun r => [r_src r; r_ev r; r_next r; r_act r; r_guard r]) t; el_user := [] |}.
+     el_rows := map (fun r => [r_src r; r_ev r; r_next r; r_act r; r_guard r]) t; el_user := []; el_msgids := [] |}.
 
 Definition items_of (e : elements) (k : ekind) : list string :=
   match k with
@@ -158,6 +163,10 @@ Definition table_of_kind (k : ekind) : string -> nat -> list (string * string) :
   match k with KStruct | KProto | KMsg => proto_table | _ => elem_table end.
 
 (* ---------------------------------------------------------------- nested transition blocks *)
+(* a per-message block with ids: the message's names, counters, and <<<MSGID>>> = its id as the interface prints it *)
+Definition msg_table (ids : list (string * string)) (name : string) (i : nat) : list (string * string) :=
+  proto_table name i ++ [("MSGID", EngineSM.idof ids name)].
+
 (* filterInitialState: the two spellings of the initial state's name *)
 Definition init_table (first : string) : list (string * string) := [("STATE_0", first); ("state_0", camel first)].
 Definition state_table (s : string) : list (string * string) := family "STATENAME" "stateName" "STATE_NAME" s.
@@ -207,6 +216,7 @@ Definition ref_item16 (e : elements) (it : item16) : list string :=
   | Block k _ _ body => ref_block (table_of_kind k) (items_of e k) body
   | SigBlock _ _ body => ref_block sig_table (el_sigs e) body
   | TransBlock _ _ body => ref_trans (el_tps e) body
+  | MsgBlock _ _ _ body => ref_block (msg_table (el_msgids e)) (el_msgs e) body
   | InitLine l => [render_line (map (subst16 (init_table (el_first e))) l)]
   | UserLine l => [ref_line (el_user e) l]
   | TableLine pre ee => EngineSM.sml_print (el_states e) (el_rows e) ee pre     (* smgen.innerexpand_sml; its text: Model/SmlRender.v, C09_engine_text *)
@@ -220,7 +230,7 @@ Definition mid_item16 (e : elements) (it : item16) : list string :=
 Definition with_user (a : list (string * string)) (e : elements) : elements :=
   {| el_states := el_states e; el_events := el_events e; el_actions := el_actions e; el_guards := el_guards e; el_sigs := el_sigs e;
      el_structs := el_structs e; el_protos := el_protos e; el_msgs := el_msgs e; el_tps := el_tps e; el_first := el_first e;
-     el_rows := el_rows e; el_user := a |}.
+     el_rows := el_rows e; el_user := a; el_msgids := el_msgids e |}.
 
 Definition ref16 (e : elements) (t : template16) : string :=
   concat_lines (map tab4 (flat_map (ref_item16 e) t)).
